@@ -223,8 +223,11 @@ pub fn single_op_file(case: &OpCase, kinds: &[Kind], neg: u8, sorts_first: bool,
             f.line(&format!("next {asrt} {ast} {ast}"));
         }
     }
-    for (sid, id) in holds {
-        f.line(&format!("next {sid} {id} {id}"));
+    // plain states (neither init nor next) are documented to become inputs: leave them plain in some files
+    if salt % 4 != 2 {
+        for (sid, id) in holds {
+            f.line(&format!("next {sid} {id} {id}"));
+        }
     }
     f.text()
 }
